@@ -541,6 +541,7 @@ def program(config="K0", unit="secp256k1.c", verify=False):
     key = (config, unit, verify)
     if key not in _prog_cache:
         _prog_cache[key] = Program(extract(config, unit, verify), canon_fe=not verify)
+        _prog_cache[key].config = config
     return _prog_cache[key]
 
 
